@@ -434,7 +434,7 @@ func run(p *kernel.Plan) (res *kernel.Result) {
 		}
 		return res.Fail(fmt.Sprintf("%s:cs%s", k, csClass(e.CSID)), "%d messages chunked, %d decoded, then: %v; next expected on chunk stream %d: type %d len %d", len(t.expect), len(got), rerr, e.CSID, e.Type, len(e.Payload))
 	}
-	if oe.Cause(rerr) != io.EOF {
+	if c := oe.Cause(rerr); c != io.EOF && c != io.ErrUnexpectedEOF {
 		return res.Fail("C02/end-error", "after the last message the reader ended with %v, want root cause io.EOF", rerr)
 	}
 	return res
